@@ -65,7 +65,7 @@ Section filt2.
     if mxe <=? dp0 then
       match sh with
       | PG => do_enter c s a t =
-              {| fc := fstate2 i' o' dp0 mx' tm' zs'; enabled := true; cached := cached s; stack := stack s;
+              {| fc := fstate2 i 0 dp mx tm zs; enabled := true; cached := cached s; stack := stack s;
                  ridx := ridx s; out := out s; warned := false |} /\ hooked c s a = false
       | CYG => do_enter c s a t =
                {| fc := fstate2 i' o' dp0 mx' tm' zs'; enabled := true; cached := cached s;
@@ -526,19 +526,21 @@ Section filt2.
                split; [lia|]. split; [lia|]. split; [split; [discriminate|lia]|]. intros _.
                split; [exact Hsc|]. rewrite Hthr'. repeat split; try assumption; lia. }
              destruct Hsh as [Es|Es]; rewrite Es in ER; destruct ER as [Een Hhk]; rewrite Een, Hhk.
-             ++ (* -pg shape: the guard excludes a time= / size= trigger here, nothing changed *)
+             ++ (* -pg shape: the rejected entry leaves the state as it was; the guard excludes a time= / size=
+                   trigger here, so the callees see the threshold the specification says *)
                 assert (Htz : tm' = tm /\ zs' = zs).
                 { destruct GUARD as [G|G]; [congruence|]. specialize (G a). rewrite <- Eg in G.
                   subst tm' zs'. destruct (stm g) as [t|] eqn:Est, (ssz g) as [z|] eqn:Esz; try (split; reflexivity);
                     (destruct G as [G|G]; [first [left; discriminate|right; discriminate]|congruence|congruence]). }
                 destruct Htz as [Htm Hzs].
-                set (s1 := {| fc := fstate2 i 0 dp mx tm' zs'; enabled := true; cached := cached s; stack := stack s;
+                set (s1 := {| fc := fstate2 i 0 dp mx tm zs; enabled := true; cached := cached s; stack := stack s;
                               ridx := ridx s; out := out s; warned := false |}).
                 assert (Hix : idx s1 + heights kids <= ms) by (unfold idx in *; cbn [stack s1]; lia).
-                destruct (RK s1 (false :: hk) i 0%Z dp mx tm' zs' x' d eq_refl HR' eq_refl Hr Hix) as (s2 & E2 & A2).
+                assert (HR'' : Rel2 i 0 dp mx tm zs x') by (rewrite <- Htm, <- Hzs; exact HR').
+                destruct (RK s1 (false :: hk) i 0%Z dp mx tm zs x' d eq_refl HR'' eq_refl Hr Hix) as (s2 & E2 & A2).
                 unfold exec in E2. rewrite E2. cbn [dstep]. exists s2. split; [reflexivity|].
                 destruct A2 as (F2 & En2 & C2 & R2 & S2 & O2). cbn [stack out cached fc s1] in *.
-                unfold afterg. rewrite Hfc, <- Htm, <- Hzs. auto 10.
+                unfold afterg. rewrite Hfc. auto 10.
              ++ (* always-push shape: the frame restores the threshold and the size filter at exit *)
                 set (fr := gframe3 CYG true false false (str g) (sc g) a 0 (ridx s) (fstate2 i 0 dp mx tm zs)).
                 set (s1 := {| fc := fstate2 i 0 dp mx tm' zs'; enabled := true; cached := cached s; stack := fr :: stack s;
